@@ -57,7 +57,7 @@ cp $SRC/demo_test.go $OUT/demo_test.go
 python3 - "$P" "$M" "$clean_demo" "$patched_demo" "${suite:-none}" "$results" <<'PY'
 import json,sys
 P,M,cd,pd,suite,res=sys.argv[1:7]
-meta={"property":P,"mutation":M,"demo_on_clean_tree":cd,"demo_on_patched_tree":pd,
+meta={"property":P[:3],"round":P[3:] or "r1","mutation":M,"demo_on_clean_tree":cd,"demo_on_patched_tree":pd,
       "suite_failures_with_patch_beyond_offline_no_proxy":suite,
       "checks_run_quick":res.split(),
       "ran":"tools/seed_eval.sh: scratch worktree, git apply patch.diff, go build ./..., demo test with and without the patch, go test ./... with the patch, then ./check <id> quick with VERIF_REPO_DIR=<patched worktree>"}
